@@ -18,7 +18,7 @@ RULE = ("plan = frame with 1..8 rows (1..25 thorough) and 1..4 columns over bool
         "and never a sentinel; back-conversion has the same names/order, nrow, cell-wise equal values, same missing positions, "
         "and the same dtype for every bool/int/float/str column with a non-missing value. Non-trivial: a missing value "
         "present. Distinct = plan hash.")
-CASES = {"quick": 1200, "thorough": 3000}
+CASES = {"quick": 1200, "thorough": 6000}
 
 KINDS = ["b", "i", "f", "s", "s", "d", "t", "ob"]
 SENTINELS = {"", "NaT", "nan", "NaN", "None"}
